@@ -41,7 +41,7 @@ BUILT = {
              'exact rationals and TLC checks phi(0)=0, phi(-z)=-phi(z), phi(z1)+phi(z2)=phi(z1+z2), evenness in f. The emitted configurations are '
              'replayed into focus/unfocus, mdft/czt pairs, angular_spectrum(_transfer_function) and Wavefront.free_space: values against the exact '
              'tables, and the laws themselves (energy, inverse, zero distance, undo, additivity) on Gaussian-integer fields.',
-        note='Trusted: TLC, numpy FFT as used by the driver to apply the exact transfer function. Bounded: shapes <= 6 (quick) / 10 (thorough) per axis, '
+        note='Added after round-2 seeding: non-integer Q on the FFT route in the quick tier; the free-space algebra (unit modulus, additivity, negated distance, energy) replayed at distances far beyond the exact menu. Trusted: TLC, numpy FFT as used by the driver to apply the exact transfer function. Bounded: shapes <= 6 (quick) / 10 (thorough) per axis, '
              'rational Q with integer nQ, small rational menus for wavelength / spacing / distance; float32 only in the thorough tier.',
         technique='TLA+ specs (Dft.tla with exact cyclotomic unitarity laws, FreeSpace.tla rational phase table) checked by TLC; emitted configurations and metamorphic laws replayed into prysm'),
     'C05': dict(
@@ -101,7 +101,7 @@ BUILT = {
              'colour-site map of both layouts with recomposition = identity. Emitted configurations are replayed into Detector.expose (noise off through '
              'the public back-end shim; range, monotonicity, value within one count, shape, dtype), bindown/tile (values, totals, levels, adjoint) and '
              'prysm.bayer (decomposite, recomposite, composite, both demosaics: every raw sample at its native site).',
-        note='Trusted: TLC, numpy. Bounded: bit depths 1..24, N <= 3 dimensions, mosaics up to 6x8; white-balance helpers are not part of the statement and '
+        note='Added after round-2 seeding: bindown of a near-saturated uint8 frame. Trusted: TLC, numpy. Bounded: bit depths 1..24, N <= 3 dimensions, mosaics up to 6x8; white-balance helpers are not part of the statement and '
              'are not checked.',
         technique='TLA+ spec (Sensor.tla: pipeline machine, index-map laws, colour-site map) checked by TLC; emitted configurations replayed into prysm.detector / prysm.bayer'),
     'C11': dict(
@@ -161,7 +161,7 @@ BUILT = {
              'gives derivatives of any order in x = u^2. Replayed: every *_der function and zernike_nm_der (radial and azimuthal, both signs of m, norm '
              'on/off) against the exact derivative values; the documented entries of jacobi_sum_clenshaw_der, clenshaw_qbfs_der and clenshaw_q2d_der '
              'tables for j = 1..3; compute_z_zprime_Qbfs / _Qcon / _Q2d (z, dz/du, dz/dtheta) against sums formed from the exact per-mode values.',
-        note='Trusted: TLC, ModQ interpreter. Bounded: orders <= 8 (quick) / 16, Forbes polynomials n <= 5, m <= 3 (quick) / n <= 9, m <= 5, derivative orders <= 3; '
+        note='Added after round-2 seeding: Clenshaw parameters with alpha + beta = -1, alpha != beta in the quick tier; ragged azimuthal families in compute_z_zprime_Q2d. Trusted: TLC, ModQ interpreter. Bounded: orders <= 8 (quick) / 16, Forbes polynomials n <= 5, m <= 3 (quick) / n <= 9, m <= 5, derivative orders <= 3; '
              'only the documented table entries are compared. The ray-tracing surface helpers are covered through C19.',
         technique='TLA+ specs (formal derivatives in PolyDefs/OrthoPoly/QPoly, Clenshaw.tla derivative-recurrence machine) checked by TLC; exact derivative values replayed into prysm'),
     'C10': dict(
@@ -186,7 +186,7 @@ BUILT = {
              'full-band bound against the rectangle rule. Replayed: interferogram.psd values and axes, Parseval on its output, bandlimited_rms for every pair of '
              'band edges (frequencies and periods, edges on and off sample frequencies) against the exact rational, additivity and monotonicity on the '
              'implementation\'s own numbers, the Interferogram methods, and render_synthetic_surface / render_from_psd (requested RMS over valid samples).',
-        note='Trusted: TLC, numpy. Bounded: shapes up to 6x3 (quick) / 6x6 with axis lengths in {1,2,3,4,6}; windows passed as arrays (Hann / Welch named windows are '
+        note='Added after round-2 seeding: law Homogeneous (PSD quadratic in the current heights) and an in-place change of the data between two psd() calls of one object. Trusted: TLC, numpy. Bounded: shapes up to 6x3 (quick) / 6x6 with axis lengths in {1,2,3,4,6}; windows passed as arrays (Hann / Welch named windows are '
              'conformed through the array path only); numpy >= 2 runtime (the only one installed).',
         technique='TLA+ spec (Psd.tla: exact integer spectrum, band partition and trapezoid-weight laws) checked by TLC; emitted cases replayed into prysm.interferogram PSD routines'),
     'C20': dict(
@@ -200,7 +200,7 @@ BUILT = {
              'Pauli coefficients and compared with the constructors (scalar and batched shapes (2,), (2,3)), jones_to_mueller (scalar and broadcast), '
              'pauli_coefficients / pauli_spin_matrix; jones_adapter-wrapped focus, unfocus, both fixed-sampling routines and angular_spectrum are compared '
              'with the component-wise calls.',
-        note='Trusted: TLC, ModQ interpreter. Bounded: 4 (quick) / 7 Pythagorean orientations, 3 / 5 retardances, charges 1..2 / 1..3, 2 / 4 arbitrary matrices; '
+        note='Added after round-2 seeding: polarised propagation of nearly-equal-component and dim Jones fields (tolerance relative to each component); Pauli coefficients of a (2, 3) batch. Trusted: TLC, ModQ interpreter. Bounded: 4 (quick) / 7 Pythagorean orientations, 3 / 5 retardances, charges 1..2 / 1..3, 2 / 4 arbitrary matrices; '
              'irrational angles are not evaluated.',
         technique='TLA+ spec (Jones.tla: exact Q(i) matrices, group laws) checked by TLC; exact element matrices replayed into prysm.x.polarization'),
     'C17': dict(
@@ -227,7 +227,7 @@ BUILT = {
              'The spec also carries the running refractive index of a prescription (only refracting surfaces change it; three-surface glass prescription with '
              'an evaluation plane inside the medium), off-axis sections of the same parent surface (replayed into Surface.off_axis_conic with dx and dy shifts) '
              'and rays that meet the surface from the +z side.',
-        note='Trusted: TLC, numpy. Bounded: 11 hit geometries x 6 incidences x 9 bends x 3 (4) frames x 3 (5) off-axis shifts; Q-type surfaces are outside the rational '
+        note='Added after round-2 seeding: a general conic (k = -19/36) incl. off-axis sections; every group of rays sharing a surface is also traced as one (N, 3) batch. Trusted: TLC, numpy. Bounded: 11 hit geometries x 6 incidences x 9 bends x 3 (4) frames x 3 (5) off-axis shifts; Q-type surfaces are outside the rational '
              'family (their sag/derivatives are bound through C07/C09). Known findings: rays so steep that they cross the vertex plane outside the sag domain return NaN; '
              'the ray through the local origin of a dy-shifted off-axis conic gets the normal (0,0,1).',
         technique='TLA+ spec (RayTrace.tla: exact rational ray/surface geometry, Snell and mirror laws) checked by TLC; exact hit points and directions replayed into prysm.x.raytracing'),
@@ -244,7 +244,7 @@ BUILT = {
              'annulus, every transmitting sample in exactly one segment, primitives monotone in their size and symmetric. Every state is replayed into '
              'CompositeHexagonalAperture (segment_ids, all_centers, windows + local_masks, amp, prepare_opd_bases + compose_opd), CompositeKeystoneAperture and prysm.geometry; '
              'every non-tie sample must agree.',
-        note='Trusted: TLC, numpy, scipy.spatial. Bounded: grids 14..25 per axis (odd, even, non-square), rings 1..2 (0..2), 4 exclusion sets, 4 (7) diameter/gap/sampling triples, '
+        note='Added after round-2 seeding: azimuthal_gap = 0 keystone cases and an asymmetric spider centre are always in the quick tier. Trusted: TLC, numpy, scipy.spatial. Bounded: grids 14..25 per axis (odd, even, non-square), rings 1..2 (0..2), 4 exclusion sets, 4 (7) diameter/gap/sampling triples, '
              '8 keystone ring layouts, about 100 primitive parameter sets; lengths integer multiples of a unit, angles multiples of 30 degrees or Pythagorean. Samples exactly on '
              'a boundary are not compared.',
         technique='TLA+ specs (HexRing.tla step machine; Aperture.tla exact Z[sqrt 3] membership, tiling laws) checked by TLC; every state replayed into prysm.segmented and prysm.geometry'),
